@@ -284,6 +284,19 @@ SuffixRules(e) ==
       }
     [] e.op = "suffixcfg" -> SortRules(e, "DRIFT09")
     [] e.op = "suffixstages" -> StageRules(e)
+    [] e.op = "sortprim" ->
+      (* contract of trHeapSort / trInsertionSort (SortPrims.tla) on the      *)
+      (* recorded result: permutation, keys ascend, an entry is complemented *)
+      (* exactly when the next entry has the same key                        *)
+      LET k  == Len(e.keys)
+          f  == e.sa_after
+          D(x) == IF x < 0 THEN -x - 1 ELSE x
+          K(x) == e.keys[D(x) + 1]
+      IN { <<"DRIFT09.sortprim",
+             /\ Len(f) = k
+             /\ { D(f[i]) : i \in 1..k } = 0..k - 1
+             /\ \A i \in 1..k - 1 : K(f[i]) <= K(f[i + 1]) /\ ((f[i] < 0) <=> (K(f[i]) = K(f[i + 1])))
+             /\ (k > 0 => f[k] >= 0)>> }
     [] e.op = "trcopy" ->
       (* trCopy / trPartialCopy on a situation of TrCopy.tla: the region is  *)
       (* still a permutation of its members (what the pinned trPartialCopy   *)
@@ -305,7 +318,7 @@ SuffixRules(e) ==
                   <<"C10.lcp_untouched", e.lcp_after = e.lcp>> }
     [] e.op = "panic" ->
       IF e.in = "segments" THEN { <<"C10.no_panic", FALSE>> }
-      ELSE IF e.in \in {"suffixcfg", "suffixstages", "trcopy"} THEN { <<"DRIFT09.no_panic", FALSE>> }
+      ELSE IF e.in \in {"suffixcfg", "suffixstages", "trcopy", "sortprim"} THEN { <<"DRIFT09.no_panic", FALSE>> }
       ELSE { <<"C09.no_panic", FALSE>> }
     [] e.op = "timeout" ->
       IF e.in = "segments" THEN { <<"C10.no_hang", FALSE>> } ELSE { <<"C09.no_hang", FALSE>> }
